@@ -123,7 +123,7 @@ def split_items(s):
 
 
 def run(ctx):
-    drv, model = ec.prepare(ctx, ec.C13_OBLIGATIONS)
+    drv, model = ec.prepare(ctx, ec.C13_PROOF_MODULES, ec.C13_OBLIGATIONS)
     n = 500 if ctx.tier == "quick" else 12000
     cases = list(CORPUS) + [ec.gen_history(ctx.rng, ctx.tier) for _ in range(n)]
     explore(ctx, drv, model, cases)
@@ -149,7 +149,7 @@ def run(ctx):
 
 
 def replay(ctx, rep):
-    drv, model = ec.prepare(ctx, [])
+    drv, model = ec.prepare(ctx, [], [])
     c = rep["replay"]["case"]
     line = ctx.run_lines(drv, [c])[0]
     print("case :", c)
